@@ -107,6 +107,9 @@ pub struct Case {
     /// the named address is the token's owner (and therefore a minter)
     #[serde(default)]
     pub named_is_token_owner: bool,
+    /// (with `without_grantor_allowance`) the grantor did approve, but the approval has expired
+    #[serde(default)]
+    pub grantor_allowance_expired: bool,
 }
 
 struct W<'a> {
@@ -151,6 +154,11 @@ fn build<'a>(case: &Case, named_is_probe: bool) -> W<'a> {
     let exp = env.ledger().sequence() + 500;
     if !case.without_grantor_allowance {
         s.token.approve(&counterparty, &named, &500, &exp);
+    } else if case.grantor_allowance_expired {
+        // approved until 5 ledgers from now; 6 ledgers pass (the storage entry itself is still alive)
+        let soon = env.ledger().sequence() + 5;
+        s.token.approve(&counterparty, &named, &500, &soon);
+        advance_ledgers(&env, 6);
     }
     if case.with_allowance_for_counterparty {
         // and the other way round: the counterparty holds an allowance from `named`
@@ -309,7 +317,7 @@ impl Property for C07 {
         "C07"
     }
     fn rule(&self) -> &'static str {
-        "every case = (one of 17 entry points that debit / burn / pay gas from / send as / consume for / deploy under the name of / execute as an operator a named address: token approve, transfer, transfer_from, burn, burn_from, mint_from; gas pay_gas, add_gas; gateway call_contract, validate_message; ITS deploy_interchain_token, deploy_remote_interchain_token, interchain_transfer (burn and lock paths), deploy_remote_canonical_token; operators execute; example send) x (one of 8 authoriser classes: the named address, its counterparty (recipient / allowance grantor / sender), the owner of the called contract, a stranger, nobody, the named address for other arguments, a contract naming itself without entries, a contract naming another address) x world state (with / without an allowance held by the counterparty; with / without the grantor's allowance for delegated spends; named address = an ordinary account or the token's owner/minter; amount 1..40). The full 17x8 matrix is enumerated in every run for both allowance states; proptest samples amounts. Engine: the authorisation trees (incl. nested burn / gas-payment nodes) are recorded in a twin world with all auths mocked and replayed in a fresh identical world signed by exactly one principal. Oracle: success iff the named address authorised (or is the directly calling contract); every refusal leaves the ledger snapshot identical. non-trivial = authoriser is not simply the named address; distinct by Debug hash"
+        "every case = (one of 17 entry points that debit / burn / pay gas from / send as / consume for / deploy under the name of / execute as an operator a named address: token approve, transfer, transfer_from, burn, burn_from, mint_from; gas pay_gas, add_gas; gateway call_contract, validate_message; ITS deploy_interchain_token, deploy_remote_interchain_token, interchain_transfer (burn and lock paths), deploy_remote_canonical_token; operators execute; example send) x (one of 8 authoriser classes: the named address, its counterparty (recipient / allowance grantor / sender), the owner of the called contract, a stranger, nobody, the named address for other arguments, a contract naming itself without entries, a contract naming another address) x world state (with / without an allowance held by the counterparty; with / without / with an expired grantor's allowance for delegated spends; named address = an ordinary account or the token's owner/minter; amount 1..40). The full 17x8 matrix is enumerated in every run for both allowance states; proptest samples amounts. Engine: the authorisation trees (incl. nested burn / gas-payment nodes) are recorded in a twin world with all auths mocked and replayed in a fresh identical world signed by exactly one principal. Oracle: success iff the named address authorised (or is the directly calling contract); every refusal leaves the ledger snapshot identical. non-trivial = authoriser is not simply the named address; distinct by Debug hash"
     }
     fn fixed_is_exhaustive(&self) -> Option<&'static str> {
         Some("entry-point x authoriser matrix (17 x 8) x {with,without} counterparty allowance enumerated completely; amounts sampled")
@@ -326,6 +334,8 @@ impl Property for C07 {
                 amount,
                 without_grantor_allowance,
                 named_is_token_owner,
+                // half of the "no usable allowance" worlds are "approved, but expired"
+                grantor_allowance_expired: without_grantor_allowance && amount % 2 == 0,
             })
             .boxed()
     }
@@ -334,14 +344,19 @@ impl Property for C07 {
         for ep in EPS {
             for p in PRINCIPALS {
                 for al in [false, true] {
-                    v.push(Case { ep, principal: p, with_allowance_for_counterparty: al, amount: 3, without_grantor_allowance: false, named_is_token_owner: false });
+                    v.push(Case { ep, principal: p, with_allowance_for_counterparty: al, amount: 3, without_grantor_allowance: false, named_is_token_owner: false, grantor_allowance_expired: false });
                 }
                 // the named address is the token owner / a minter
-                v.push(Case { ep, principal: p, with_allowance_for_counterparty: false, amount: 3, without_grantor_allowance: false, named_is_token_owner: true });
+                v.push(Case { ep, principal: p, with_allowance_for_counterparty: false, amount: 3, without_grantor_allowance: false, named_is_token_owner: true, grantor_allowance_expired: false });
                 if matches!(ep, Ep::TokTransferFrom | Ep::TokBurnFrom) {
                     // no allowance from the grantor: nobody's authorisation is enough
                     for owner in [false, true] {
-                        v.push(Case { ep, principal: p, with_allowance_for_counterparty: false, amount: 3, without_grantor_allowance: true, named_is_token_owner: owner });
+                        for expired in [false, true] {
+                            // amount 500 = the whole (expired) allowance; 3 = part of it
+                            for amount in [3u8, 250] {
+                                v.push(Case { ep, principal: p, with_allowance_for_counterparty: false, amount, without_grantor_allowance: true, named_is_token_owner: owner, grantor_allowance_expired: expired });
+                            }
+                        }
                     }
                 }
             }
@@ -351,7 +366,7 @@ impl Property for C07 {
 
     fn run(&self, case: &Case, cx: &mut Cx) -> Result<(), String> {
         let ep = case.ep;
-        let amount = case.amount as i128;
+        let amount: i128 = if case.amount == 250 { 500 } else { case.amount as i128 };
         cx.label(&format!("{:?}", case.principal));
         if case.principal != Principal::Named {
             cx.nontrivial();
@@ -372,7 +387,7 @@ impl Property for C07 {
                     cx.count("must_fail");
                     cx.label("delegated_without_allowance");
                     let snap0 = snapshot(env);
-                    ensure_p!(!call_via_probe(&w, &inv), "{:?}: a delegated spend by a contract succeeded although the holder never granted an allowance", ep);
+                    ensure_p!(!call_via_probe(&w, &inv), "{:?}: a delegated spend by a contract succeeded although the holder has no usable allowance (never granted, or expired)", ep);
                     ensure_p!(snapshot(env) == snap0, "{:?}: refused call changed state", ep);
                     return Ok(());
                 }
@@ -414,7 +429,7 @@ impl Property for C07 {
                 let snap0 = snapshot(env);
                 let ev0 = events_len(env);
                 cx.count("must_fail");
-                ensure_p!(!call_direct(&w, &inv), "{:?}: a delegated spend succeeded although the holder never granted an allowance (signed by {:?}, spender is token owner: {})", ep, case.principal, case.named_is_token_owner);
+                ensure_p!(!call_direct(&w, &inv), "{:?}: a delegated spend succeeded although the holder has no usable allowance for the spender - never granted, or expired - (signed by {:?}, spender is token owner: {})", ep, case.principal, case.named_is_token_owner);
                 ensure_p!(snapshot(env) == snap0 && events_len(env) == ev0, "{:?}: refused call changed state", ep);
                 Ok(())
             }
